@@ -347,3 +347,7 @@ pub(super) fn base64_decode(value: &str) -> Result<Vec<u8>, String> {
 
     Ok(out)
 }
+
+#[cfg(kani)]
+#[path = "/verif/harness/ripd/tasks__logs.rs"]
+mod verif_kani;
